@@ -137,6 +137,9 @@ func cliMake(args []string) int {
 			gt = kinds[rng.Intn(2)]
 		}
 		n := rng.Intn(13)
+		if ti == 0 && *mode == "normal" && len(c.Ids) >= 2 && rng.Intn(3) == 0 {
+			n = 60 + rng.Intn(120) // long enough for unsynchronised writers to step on each other
+		}
 		if *mode == "tiny" {
 			n = 1
 		}
